@@ -107,6 +107,9 @@ impl CompactionWorker {
             all_drained_segments.extend(drained);
         }
 
+        #[cfg(feature = "verif")]
+        crate::verif::gate("compact.before_reclaim", self.shard_id as usize, 0).await;
+
         // Delete all drained segments after all batches complete
         if !all_drained_segments.is_empty() {
             if tracing::enabled!(tracing::Level::INFO) {
@@ -169,6 +172,14 @@ impl CompactionWorker {
             .await
             .map_err(|e| CompactorError::ZoneWriter(e.to_string()))?;
 
+        #[cfg(feature = "verif")]
+        crate::verif::gate(
+            "compact.output_written",
+            self.shard_id as usize,
+            batch.uid_plans[0].output_segment_id as u64,
+        )
+        .await;
+
         // Prepare new entries for handover
         // When multiple UIDs are compacted from the same input segments,
         // they should all go into ONE output segment (not separate segments per UID)
@@ -198,6 +209,14 @@ impl CompactionWorker {
             .commit_batch(&batch, new_entries)
             .await
             .map_err(|e| CompactorError::SegmentIndex(e.to_string()))?;
+
+        #[cfg(feature = "verif")]
+        crate::verif::gate(
+            "compact.batch_committed",
+            self.shard_id as usize,
+            shared_output_segment_id as u64,
+        )
+        .await;
 
         if tracing::enabled!(tracing::Level::INFO) {
             info!(
